@@ -37,6 +37,25 @@ claim("C15", "proof",
       "CPython ast. Two equal stateful atoms in one expression are not modelled (ANALYSIS-ERROR, reported by C06).",
       "DESIGN.md 4/C15")
 
+claim("C13", "other",
+      "symbolic interpretation of Operator.apply bodies + DFA language equivalence; guard/dominance rules on the call graph (AST)",
+      "Partial, structural: each operator's wiring is interpreted symbolically and its language compared with the "
+      "operator's regular expression by DFA equivalence (exact for the wiring); every edge-following recursion or "
+      "worklist in the engine must carry a threaded visited guard (termination of construction on epsilon cycles); "
+      "predicate __eq__/__hash__ coherence; shape of subset construction and of match/starts_with. Matching "
+      "semantics on inputs (match <=> membership) is NOT decided by this family.",
+      "Trusted: Thompson invariants of sub-automata (fresh start/accepting states), CPython ast.",
+      "DESIGN.md 4/C13")
+
+claim("C14", "other",
+      "guard-dominance (contradiction between sibling sites) + abstract interpretation of Balanced over depth x token classes (AST)",
+      "Partial, structural: every result-append in find_all must be dominated by the disjointness guard, by an "
+      "accepting test and (main loop) by a cannot-continue condition; match ends are exclusive and used as such by "
+      "get_headers; Balanced's transfer table is derived from its source and compared with the specification for "
+      "depths 0..3; order preservation. Soundness/longest/completeness over all inputs is NOT decided.",
+      "Trusted: CPython ast; statement-tree dominance (no goto-like constructs in find_all).",
+      "DESIGN.md 4/C14")
+
 NOT_IMPLEMENTED_YET = "check under construction in this session (see DESIGN.md section 4 for the planned rules)"
 
 
